@@ -3,6 +3,8 @@ mod findrun;
 mod model;
 mod props;
 mod sandbox;
+mod vreclog;
+mod xargsrun;
 
 use engine::Tier;
 
